@@ -302,7 +302,12 @@ def midphase_part(run, n_desc, with_instances=True):
             _, born = fates(desc, order)
             for ti in sorted(set(ti for _, ti in born)):
                 jobs.append((di, order, "new", ti)); scs.append(solo_new_scenario(desc, order, ti))
-    fin = [G.finalize(sc) for sc in scs]
+    import c07_coq as Q
+    groups = [di for di, _, _, _ in jobs]
+    first = {}
+    for j, di in enumerate(groups):
+        first.setdefault(di, j)
+    fin = [Q.finalize_group(G, [sc], scs[first[groups[j]]])[0] for j, sc in enumerate(scs)]
     results = S.run_impl(run, fin, shards=14)
     flagged = set()
     index = {}
@@ -368,7 +373,7 @@ def midphase_part(run, n_desc, with_instances=True):
         if di % 40 == 0 and order == list(range(k)):
             run.sample({"family": "midphase", "tracks": [(t["chan"], t["role"]) for t in desc["tracks"]],
                         "callbacks": [c["ops"] for c in desc["callbacks"]], "callback_ticks": fire[:6], "first_observations": r["obs"][:4]})
-    bad = S.model_disagreements(run, fin, results, chunk=30)
+    bad = Q.model_disagreements_shared(run, S, fin, results, groups, target=40, name="midagree")
     run.cov["traces_validated_against_impl"] += len(fin) - len(bad)
     for j in [x for x in bad if x not in flagged][:2]:        # same signature: one report is printed; do not evaluate the model trace for all
         S.report_disagreement(run, fin[j], results[j], "correspondence", "Timeline/Track (callbacks changing the track list mid-phase)", extra={"part": "midphase-model"})
@@ -377,7 +382,7 @@ def midphase_part(run, n_desc, with_instances=True):
     # instances of the generalised merge theorem (C07_merge_cb): for every track whose solo run needs no help from outside -
     # bystanders, callers, tracks nobody's callback aims at - the hypotheses hold for the joint history and Coq's solo run of the
     # theorem makes the calls of the REAL solo run
-    terms, where = [], []
+    terms, where, tgroups = [], [], []
     for j, (di, order, kind, x) in enumerate(jobs):
         if kind != "joint" or j in flagged or j in bad:
             continue
@@ -402,9 +407,16 @@ def midphase_part(run, n_desc, with_instances=True):
             terms.append("merge_cb_instance %s %s %s %s %s %s" % (
                 natlit(ids[jj]), zlit(tr["chan"]), lst([natlit(m) for m in mine]), S.coq_config(fin[j]),
                 S.coq_history(fin[j]), lst([lst([S.coq_call(c) for c in calls]) for calls in dense])))
-            where.append((j, jj))
+            where.append((j, jj)); tgroups.append(j)
     hdr = S.HEADER + "From Isobar Require Import Sched.TimeProofs Sched.MergeProofs Sched.MergeCbProofs Props.C07.\n" + MIDCB_INSTANCE
-    badi = run.coq_failing(hdr, terms, chunk=30)
+
+    def cands(i0, i1):
+        inner, outer = [], []
+        for j in dict.fromkeys(w[0] for w in where[i0:i1]):
+            a, b = Q.scenario_literals(S, fin[j])
+            inner += a; outer += b
+        return inner + outer
+    badi = Q.failing_shared(run, hdr, terms, cands, Q.bounds_by_group(tgroups, 40), name="midinstance")
     run.cov["merge_cb_theorem_instances_checked"] = run.cov.get("merge_cb_theorem_instances_checked", 0) + len(terms) - len(badi)
     for b in badi[:2]:
         j, jj = where[b]
